@@ -310,6 +310,12 @@ class Check(BaseCheck):
             num('"%s"-"%s"' % (tb, ta), 'datetime-datetime(text)', sb - sa)
         for op, exp in (('<', a < b), ('=', a == b), ('>', a > b), ('<=', a <= b), ('>=', a >= b), ('<>', a != b)):
             self.expect_is(rec, e, 'd_a%sd_b' % op, exp, 'datetime%sdatetime' % op)
+        # the whole number of its day (an int, on either side) is below a date-time with a time of day, equal to it at midnight
+        midnight = (a.hour, a.minute, a.second, a.microsecond) == (0, 0, 0, 0)
+        e.bind(n_day=int(fa), n_next=int(fa) + 1)
+        for f_, exp in (('n_day=d_a', midnight), ('n_day<d_a', not midnight), ('n_day>=d_a', midnight), ('d_a>n_day', not midnight), ('d_a=n_day', midnight), ('n_next>d_a', True), ('n_next<=d_a', False),
+                        ('%d=d_a' % fa, midnight), ('%d<d_a' % fa, not midnight)):
+            self.expect_is(rec, e, f_, exp, 'whole-number-vs-datetime')
         if abs(sa - sb) > 8 * MS:
             self.expect_is(rec, e, 'd_a<%s' % hx.numlit(float(sb)), a < b, 'datetime<serial')
             self.expect_is(rec, e, '%s>=d_b' % hx.numlit(float(sa)), a >= b, 'serial>=datetime')
